@@ -120,7 +120,9 @@ class BlockChain(object):
             )
         old_chain_finder = self.chain_finder
         self.chain_finder = ChainFinder()
-        self._longest_chain_cache = None
+        # the reported chain does not change by locking: keep its unlocked remainder
+        # (recomputing it from the rebuilt finder may pick another chain of equal weight)
+        self._longest_chain_cache = longest_chain[: len(longest_chain) - index]
 
         def iterate() -> Generator[tuple[Any, Any], None, None]:
             for tree in old_chain_finder.trees_from_bottom.values():
